@@ -2375,6 +2375,15 @@ func (m *repoManager) newData(uuid dvid.UUID, t TypeService, name dvid.InstanceN
 	m.idMutex.Unlock()
 
 	r.Lock()
+	if _, found := r.data[name]; found {
+		// another request created an instance of this name since the check above
+		r.Unlock()
+		m.idMutex.Lock()
+		delete(m.iids, id)
+		delete(m.dataByUUID, dataservice.DataUUID())
+		m.idMutex.Unlock()
+		return nil, fmt.Errorf("Data named %q already exists in repo (root %s)", name, r.uuid)
+	}
 	r.data[name] = dataservice
 	dvid.VerifEvent("newdata", "name", name, "iid", id, "root", r.uuid, "uuid", uuid)
 	tm := time.Now()
